@@ -17,7 +17,11 @@ Consume ==
   /\ LET e == Trace[l] IN
      /\ prev' = e.all
      /\ prevFillMin' = IF e.fill_n > 0 THEN e.fill_min ELSE -1
-     /\ IF e.ev # "Update" THEN viol' = viol
+     /\ IF e.ev = "Delete" THEN
+          \* the administrator's removal: refused for the collector's own entry, which stays with unlimited lifetime
+          viol' = viol \cup (IF ~\E x \in Range(e.all) : x.id = GC /\ x.exp = -1 THEN {"GcWorkerThereUnlimited"} ELSE {})
+                       \cup (IF e.svc # GC /\ ~e.err /\ \E x \in Range(e.all) : x.id = e.svc THEN {"NonPositiveTtlGone"} ELSE {})
+        ELSE IF e.ev # "Update" THEN viol' = viol
         ELSE
          LET now == Range(e.all)
              before == Range(prev)
